@@ -308,7 +308,8 @@ def load_findings(prop=None):
             if not line or line.startswith("#") or line.startswith("fixed:"):
                 continue
             r = json.loads(line)
-            if prop is None or prop in r.get("properties", [r.get("property")]):
+            # a finding is replayed by the check that owns it (its witness format is that check's)
+            if prop is None or r.get("owner", prop) == prop and prop in r.get("properties", [r.get("property")]):
                 out.append(r)
     return out
 
